@@ -519,7 +519,7 @@ def report_violations(prop, viols, binaries, primary_cfg):
             except HarnessError as e:
                 log("[warn] minimisation failed: %s" % e)
                 minimised = text
-        h = hashlib.sha1(minimised.encode()).hexdigest()[:12]
+        h = hashlib.sha1((minimised + repr(sg) + v.get("cfg", primary_cfg)).encode()).hexdigest()[:12]
         path = os.path.join(REPLAYS, "%s-%s.plan" % (v["property"], h))
         with open(path, "w") as f:
             f.write(minimised)
@@ -602,12 +602,12 @@ PROPS = {
     "C09": dict(
         level="exploration",
         jobs=[
-            Job("c09iter", "std-debug", 400_000, 6_000_000,
+            Job("c09iter", "std-debug", 400_000, 8_000_000,
                 "plans = (iterator kind, value shape, sequence of next/next_back/nth/nth_back/len/size_hint/take/terminal ops) "
                 "drawn from the run PRNG; non-trivial = both ends consumed, or a terminal op after partial consumption; "
                 "distinct = distinct (kind, native length, top-half-zero, op sequence)"),
             Job("c09iter", "std-release", 200_000, 3_000_000, "same plans in the release harness (len() underflow wraps instead of panicking)"),
-            Job("c09bytes", "std-debug", 400_000, 8_000_000,
+            Job("c09bytes", "std-debug", 400_000, 30_000_000,
                 "plans = 1..6 exchanges: export of a value built by one of 8 routes checked against the byte/word model (minimal base-256, "
                 "shortest two's complement incl. the -2^(8k-1) exception, u32/u64 digits, iterators); library export -> transport padding "
                 "(zero bytes, sign-extension bytes, zero words) -> library import; arbitrary delivered byte strings and u32 word lists "
@@ -642,7 +642,7 @@ PROPS = {
     "C11": dict(
         level="exploration",
         jobs=[
-            Job("c11", ["std-debug", "nostd-debug", "std-release", "nostd-release"], 120_000, 3_000_000,
+            Job("c11", ["std-debug", "nostd-debug", "std-release", "nostd-release"], 120_000, 6_000_000,
                 "plans = 1..4 root calls: x from a regime swarm (below 2^64, up to 2^1024, beyond 2^1024 (scaled recursive guess), perfect "
                 "powers r^n and r^n+-1, bit length near n, all-ones; up to 6000 bits), degree n from {1,2,3,4,5,7,8,16,31,32,33,64,100,1000,"
                 "bits-1,bits,bits+1,u32::MAX,0}, BigUint/BigInt and sign, and a guess fault injected through the hook: none, no_float (exactly "
@@ -716,12 +716,12 @@ PROPS = {
     "C17": dict(
         level="exploration",
         jobs=[
-            Job("c17", "std-debug", 600_000, 12_000_000,
+            Job("c17", "std-debug", 600_000, 40_000_000,
                 "plans = 1..6 serde exchanges (fault-free round trips of values built by 8 different routes; serializer failing at token k; "
                 "arbitrary delivered u32/u64 token lists with padding, truncation, duplication, wide elements, missing End, lying size_hint, "
                 "deserializer failing at read k; (sign, digits) pairs with invalid / inconsistent signs; several values on one tape); "
                 "distinct = distinct (exchange kind, length class, parity/top-half-zero, fault kind, hint kind, route)"),
-            Job("c17", "std-release", 200_000, 4_000_000, "same plans in the release harness (no debug assertions)"),
+            Job("c17", "std-release", 200_000, 20_000_000, "same plans in the release harness (no debug assertions)"),
         ],
         assumptions=[
             "token-level reference model of the documented format (Seq(len) U32* End / Tuple(2) I8 Seq.. End)",
@@ -733,13 +733,13 @@ PROPS = {
     "C18": dict(
         level="exploration",
         jobs=[
-            Job("c18", "std-debug", 500_000, 10_000_000,
+            Job("c18", "std-debug", 500_000, 30_000_000,
                 "plans = one scripted RNG byte stream (segments: random, zeros, ones, candidates equal to / above / just below the bound, "
                 "junk in shifted-out bits; always healing to zeros) + 1..10 sampling calls sharing it (gen_biguint/gen_bigint/RandomBits/"
                 "gen_biguint_below/ranges/Uniform/sample_single/gen_range, tiny-bound enumeration, try_fill_bytes error at call k); "
                 "non-trivial = a rejection retry, a special-case branch (lbound=0/ubound=0), a documented panic, an RNG error or an enumeration; "
                 "distinct = distinct (API, bit-size class, bound shape class, inclusive?, sign classes, retries)"),
-            Job("c18", "std-release", 200_000, 4_000_000, "same plans in the release harness"),
+            Job("c18", "std-release", 200_000, 15_000_000, "same plans in the release harness"),
         ],
         assumptions=[
             "rng_model: gen_biguint(n) = first ceil(n/32) little-endian words of the stream, top word shifted right by 32 - n%32",
